@@ -371,6 +371,20 @@ macro_rules | `(tactic| fr_quiet_prim) => `(tactic| with_reducible first
   | exact quiet_closeUpvalues _ | exact quiet_readUpvalueLoc _ | exact quiet_writeUpvalueLoc _ _
   | exact quiet_allocBytes _)
 
+theorem quiet_guardRows (es : List (Val × Val)) : Quiet (guardRows es) := by
+  unfold guardRows
+  refine quiet_bind (quiet_forIn _ _ _ (fun x _ => ?_)) (fun _ => quiet_pure _)
+  obtain ⟨k, v⟩ := x
+  exact quiet_bind (quiet_guardVal _) (fun _ => quiet_bind (quiet_guardVal _) (fun _ => quiet_pure _))
+theorem quiet_unguardRows (es : List (Val × Val)) : Quiet (unguardRows es) := by
+  unfold unguardRows
+  refine quiet_bind (quiet_forIn _ _ _ (fun x _ => ?_)) (fun _ => quiet_pure _)
+  obtain ⟨k, v⟩ := x
+  exact quiet_bind (quiet_unguardVal _) (fun _ => quiet_bind (quiet_unguardVal _) (fun _ => quiet_pure _))
+
+macro_rules | `(tactic| fr_quiet_prim) => `(tactic| with_reducible first
+  | exact quiet_guardRows _ | exact quiet_unguardRows _)
+
 theorem quiet_initTable : Quiet initTable := by intro fs; unfold initTable; fr_auto
 theorem quiet_initString (b : List UInt8) : Quiet (initString b) := by intro fs; unfold initString; fr_auto
 theorem quiet_initSimple (o : Obj) : Quiet (initSimple o) := by intro fs; unfold initSimple; fr_auto
